@@ -106,15 +106,17 @@ def random_jump_model(rng, closed=False, shape=None, limits=True):
         # range-style declaration of the first k states ('y1:<k+1>', optionally with one limit pair for all of
         # them, optionally wrapped in an ODEVariable whose display name differs from its ID); the rest by name
         k = rng.randint(2, ns)
-        lim = rng.choice([(0, None), (0, None), (0, rng.randint(6, 40)), (rng.randint(0, 1), rng.randint(10, 40))])
+        odevar = rng.random() < 0.4          # an ODEVariable is accepted bare only (default limits)
+        lim = (0, None) if odevar else \
+            rng.choice([(0, None), (0, None), (0, rng.randint(6, 40)), (rng.randint(0, 1), rng.randint(10, 40))])
         for i in range(k):
             sy.states[i] = "y%d" % (i + 1)
             lims[i] = lim
             a = lim[0]
             b = min(lim[1] if lim[1] is not None else 25, 25)
             x0[i] = rng.randint(a, max(a, b)) if rng.random() < 0.8 else a
-        decl = {"range": k, "range_lim": (lim if (lim != (0, None) or rng.random() < 0.5) else None),
-                "range_odevar": rng.random() < 0.4}
+        decl = {"range": k, "range_lim": (None if odevar else (lim if (lim != (0, None) or rng.random() < 0.5) else None)),
+                "range_odevar": odevar}
     defn = gen.Defn(sy, [], procs, lims=lims, decl=decl)
     return defn, theta, x0, lims
 
